@@ -163,15 +163,15 @@ structure CurveOps (F : Type) where
 def curveG1 : CurveOps Fq :=
   { rdF := nextFq, strF := fun x => [hexQ x], b := g1B, zero := 0, one := 1,
     add := Pt.add, dbl := Pt.dbl, neg := Pt.neg, ofJac := Pt.ofJac, onCurve := Pt.isOnCurve g1B,
-    smulR := Pt.smul r, mulF := (· * ·), addF := (· + ·), negF := (- ·), beqF := (· == ·), beqPt := (· == ·),
-    smul := Pt.smul,
+    smulR := Pt.smulFast r, mulF := (· * ·), addF := (· + ·), negF := (- ·), beqF := (· == ·), beqPt := (· == ·),
+    smul := Pt.smulFast,
     randF := fun s => let (raw, s') := randFqRaw s; ((unmontQ raw).toOption, s') }
 
 def curveG2 : CurveOps Fq2 :=
   { rdF := nextFq2, strF := strQ2, b := g2B, zero := 0, one := 1,
     add := Pt.add, dbl := Pt.dbl, neg := Pt.neg, ofJac := Pt.ofJac, onCurve := Pt.isOnCurve g2B,
-    smulR := Pt.smul r, mulF := (· * ·), addF := (· + ·), negF := (- ·), beqF := (· == ·), beqPt := (· == ·),
-    smul := Pt.smul,
+    smulR := Pt.smulFast r, mulF := (· * ·), addF := (· + ·), negF := (- ·), beqF := (· == ·), beqPt := (· == ·),
+    smul := Pt.smulFast,
     randF := fun s =>
       let (r0, s) := randFqRaw s; let (r1, s) := randFqRaw s
       (match (unmontQ r0).toOption, (unmontQ r1).toOption with
